@@ -9,16 +9,18 @@ from harness.common.core import rat
 from harness.pyx import drift
 
 ID = "C07"
-LEAN_TARGETS = ["ChmpyVerif.Props.C07"]
+LEAN_TARGETS = ["ChmpyVerif.Props.C07", "ChmpyVerif.Props.C07Full"]
 T = "ChmpyVerif.Props.C07."
 THEOREMS = [T + n for n in ("nphi_table", "ntheta_ge", "plm_enumeration", "idxC_block", "idxC_injective", "coefficient_index_eq",
-                            "analysis_synthesis_fixed_m", "analysis_synthesis_signed", "analysis_linear", "parseval_fixed_m")]
+                            "analysis_synthesis_fixed_m", "analysis_synthesis_signed", "analysis_linear", "parseval_fixed_m",
+                            "dft_orthogonality", "sht_roundtrip")]
 TRUSTED = [
     "hand model Model/SHT.lean of the index/sign/phase logic of the four kernels, expand_coeffs, evaluate_at_points, power_spectrum "
     "(Float complex in the driver; the algebraic theorems are stated over mirrored sums, one azimuthal order at a time)",
     "H_gl: discrete orthonormality of the normalised associated Legendre values at the Gauss-Legendre nodes (scipy roots_legendre + the "
     "recurrence in AssocLegendre) — hypothesis hG of the exactness theorems, validated numerically for every L used on each run",
-    "scipy.fft fft/ifft with norm='forward' are mutually inverse DFTs; the decoupling of different m by the DFT is assumed, not proved",
+    "scipy.fft fft/ifft with norm='forward' compute the discrete Fourier sums the theorems speak about (the decoupling of the orders BY those sums "
+    "is proved: dft_orthogonality)",
     "the prebuilt _sht extension is a faithful compilation of the .pyx reconstructed from its .c (drift guard)",
 ]
 RULE = ("L in {0..16, 31, 32, 63, 64} (quick) / 0..64 (thorough): kernel-level correspondence for random coefficient vectors and random theta, "
@@ -29,8 +31,10 @@ MANIFEST = {
              "enumeration of the kernels is 0,1,2,... with (L+1)(L+2)/2 entries; for EVERY L the polar grid has >= L+1 nodes (multiple of 8); the complex "
              "layout l(l+1)+m places degree l in [l², (l+1)²) injectively and equals the index used by the invariants; and, over any commutative ring, "
              "for one azimuthal order: analysis∘synthesis = identity for ANY coefficient vector given the quadrature orthonormality (also with the (-1)^m "
-             "phases of the kernels), linearity and Parseval. Not proved: the quadrature orthonormality itself (H_gl), the DFT decoupling of the orders, "
-             "the assembly over all m — these are validated numerically/oracle-checked on the real code each run."),
+             "phases of the kernels), linearity and Parseval; over any field with a primitive n-th root of unity (ℂ): the DFT decouples the orders "
+             "(Σ_k ζ^(dk) = n·[d=0] for |d| < n) and the WHOLE complex transform satisfies analysis∘synthesis = identity for every coefficient vector, "
+             "from exactly two facts: 2L < n (kernel-checked for the real grid rule) and the quadrature orthonormality H_gl. Not proved: H_gl itself "
+             "(Gauss-Legendre exactness + the Legendre recurrence) — validated numerically for every L used on each run."),
     "note": "Trusted: Lean kernel + Mathlib; H_gl and DFT facts as hypotheses; hand model mirrored in the algebraic statements; compiled extension = its .pyx.",
     "technique": "Lean 4 proof (kernel-checked grid/index tables, ring algebra for per-order exactness) + kernel-level correspondence + round-trip oracle",
 }
